@@ -1174,7 +1174,7 @@ class MyPyAstVisitor:
                     if self.mypy_file is None:  # pragma: no cover
                         raise TypeError("Expected mypy_file (module information), got None.")
 
-                    if self.mypy_file.fullname in type_path:
+                    if self.mypy_file.fullname == type_path:
                         qname = alias_qname
                         break
 
